@@ -148,11 +148,38 @@ func LocalDefs(f *Fn, v types.Object) []ast.Expr {
 	ast.Inspect(f.Body, func(n ast.Node) bool {
 		Assigns(n, func(lhs, rhs ast.Expr, _ token.Token) {
 			if id, ok := Unparen(lhs).(*ast.Ident); ok && ObjOf(info, id) == v {
-				out = append(out, rhs)
+				out = append(out, helperResults(f, rhs, 0)...)
 			}
 		})
 		return true
 	})
+	return out
+}
+
+// helperResults: a value defined as the single result of a new helper is defined by what the helper
+// returns — the result expressions of its reachable return statements (a `return ""` that only follows
+// a call that never returns defines nothing).  Any other expression stands for itself.
+func helperResults(f *Fn, e ast.Expr, depth int) []ast.Expr {
+	call, ok := Unparen(e).(*ast.CallExpr)
+	if !ok || f.P == nil || depth > 3 {
+		return []ast.Expr{e}
+	}
+	h := f.P.NewHelperCallee(f, call)
+	if h == nil || h.Sig == nil || h.Sig.Results().Len() != 1 || h.Sig.Results().At(0).Name() != "" {
+		return []ast.Expr{e}
+	}
+	var out []ast.Expr
+	for _, b := range f.P.CFG(h).Blocks {
+		if !b.Live {
+			continue
+		}
+		if r := b.Return(); r != nil && len(r.Results) == 1 {
+			out = append(out, helperResults(h, r.Results[0], depth+1)...)
+		}
+	}
+	if len(out) == 0 {
+		return []ast.Expr{e}
+	}
 	return out
 }
 
